@@ -254,6 +254,49 @@ func checkC12(w *World, r *Report) {
 				}
 				n4++
 				construct := "arguments handed to " + ssaName(target)
+				// a call form that answers with a callable (a function literal rendered later) must
+				// evaluate the arguments where the call expression is evaluated and capture them:
+				// evaluated inside the literal they see the variables of the moment of rendering
+				if fn.Parent() != nil {
+					lazy := false
+					seenV := map[ssa.Value]bool{}
+					var walk func(v ssa.Value)
+					walk = func(v ssa.Value) {
+						if seenV[v] {
+							return
+						}
+						seenV[v] = true
+						switch y := v.(type) {
+						case *ssa.Extract:
+							if c2, ok := y.Tuple.(*ssa.Call); ok && c2.Parent() == fn {
+								lazy = true
+							}
+						case *ssa.MakeSlice:
+							if y.Parent() == fn {
+								lazy = true
+							}
+						case *ssa.Slice:
+							walk(y.X)
+						case *ssa.Phi:
+							for _, e := range y.Edges {
+								walk(e)
+							}
+						case *ssa.UnOp:
+							if al, ok := y.X.(*ssa.Alloc); ok && al.Referrers() != nil {
+								for _, ref := range *al.Referrers() {
+									if st, ok := ref.(*ssa.Store); ok && st.Addr == ssa.Value(al) {
+										walk(st.Val)
+									}
+								}
+							}
+						}
+					}
+					walk(last)
+					if lazy {
+						r.bad("R12.4", ssaName(fn), construct, w.posOf(in.Pos()), "the argument expressions are evaluated inside the function literal that renders the macro later, not where the call expression is evaluated: between the two moments variables can be re-assigned (`{% set x = m(v) %}{% set v = … %}{{ x }}`), so this call form binds other values than the others")
+						return
+					}
+				}
 				if why := macroArgsOrigin(w, last, evalM, 0); why != "" {
 					r.ok("R12.4", ssaName(fn), construct, w.posOf(in.Pos()), why, true)
 				} else {
